@@ -22,6 +22,7 @@ pub fn def() -> PropDef {
         block: 1,
         flavours: &["tokio"],
         outcome: None,
+        extra_profiles: &["C01", "C03", "C05", "C06", "C07", "C12", "C15"],
     }
 }
 
@@ -130,8 +131,12 @@ pub fn check(v: &View) -> Vec<Violation> {
         }
         let dead = a.dead;
         let dead_vt = if dead.is_some() { a.dead_vt } else { v.out.outcome.vtime_end };
+        let restarts: Vec<u64> = v.cbs_of(a).filter(|c| c.cb == Cb::Started).map(|c| c.enter).skip(1).collect();
         for ((_, _, id), t) in &timers {
             let Some(kind) = t.kind else { continue };
+            // a restart aborts the timers of the previous incarnation: expectations about "how
+            // many ticks while the actor lived" end there
+            let restarted_after_reg = restarts.iter().any(|r| *r > t.reg_seq);
             let sig = format!("{kind:?}");
             // nothing fires into a terminated actor
             for (seq, vt, n) in &t.subs {
@@ -154,7 +159,7 @@ pub fn check(v: &View) -> Vec<Violation> {
                         }
                     }
                     // exact schedule on the ideal clock where sending cannot wait
-                    let never_waits = kind == TimerKind::Interval || spec.mailbox.is_none();
+                    let never_waits = kind == TimerKind::Interval || spec.effective_mailbox().is_none();
                     if ideal && never_waits {
                         crate::log::probe("c10_exact_schedule_checked");
                         for (i, (_, vt, _)) in t.subs.iter().enumerate() {
@@ -169,7 +174,7 @@ pub fn check(v: &View) -> Vec<Violation> {
                         let lived = dead_vt.saturating_sub(t.reg_vt);
                         let min_expected = if lived == 0 { 0 } else { (lived - 1) / t.period };
                         let strong_gone = crate::census::census(v, aidx).t0().is_some_and(|t0| t0 < dead.unwrap_or(u64::MAX));
-                        if (t.subs.len() as u64) < min_expected && !strong_gone && !v.fault_injected(a) && v.out.outcome.cap_phase == 0 {
+                        if (t.subs.len() as u64) < min_expected && !restarted_after_reg && !strong_gone && !v.fault_injected(a) && v.out.outcome.cap_phase == 0 {
                             out.push(violation(P, "interval-ticks-missing", &sig, format!("actor {aidx}: timer {id} ({kind:?}, period {}) registered at t={} produced {} submissions, but the actor lived until t={dead_vt} (expected at least {min_expected})", t.period, t.reg_vt, t.subs.len())));
                         }
                     }
@@ -182,7 +187,7 @@ pub fn check(v: &View) -> Vec<Violation> {
                     // exactly once if the actor outlives it
                     let due = t.reg_vt + t.period;
                     let strong_gone = crate::census::census(v, aidx).t0().is_some_and(|t0| t0 < dead.unwrap_or(u64::MAX));
-                    if t.subs.is_empty() && dead_vt > due && ideal && v.out.outcome.cap_phase == 0 && !(kind == TimerKind::DelayedSend && strong_gone) {
+                    if t.subs.is_empty() && !restarted_after_reg && dead_vt > due && ideal && v.out.outcome.cap_phase == 0 && !(kind == TimerKind::DelayedSend && strong_gone) {
                         out.push(violation(P, "one-shot-never-fired", &sig, format!("actor {aidx}: timer {id} ({kind:?}, delay {}) registered at t={} never fired although the actor lived until t={dead_vt}", t.period, t.reg_vt)));
                     }
                 }
